@@ -10,7 +10,7 @@ RULE = ("family `ring`: a real VhostUserDaemon (RecordingBackend; VringMutex- an
         "GET_VRING_BASE, RESET_DEVICE, guest kick on the most recently sent kick descriptor of a ring or on the one sent "
         "before it, front-end closing a replaced descriptor}. Every control message carries NEED_REPLY (REPLY_ACK "
         "negotiated), so a step is complete when its acknowledgement arrived; after every step a two-phase barrier on the "
-        "worker makes 'no dispatch' observable without sleeping. Observation per step = reply + the handle_event calls "
+        "worker makes 'no dispatch' observable without sleeping. Observation per step = reply + which rings hold a call descriptor + the handle_event calls "
         "(thread, device_event, identity of the ring the slice holds at that index). Histories start with nothing "
         "negotiated and all rings stopped and disabled: exhaustive to depth 4 over the full 2-ring alphabet (19 events) plus "
         "exhaustive depth-3 (1-ring alphabet) / depth-2 (2-ring alphabet) suffixes after 8 warm-up prefixes (quick); in "
